@@ -273,8 +273,8 @@ def check_C04(ctx):
                        "distinct_nontrivial = accepted configurations + hostile battles run.")
     ctx.cov["trusted_base"] = ["harness/enc.go tables", "generic core diff", "TLC", "Json module"]
     spec_battle_model(ctx)
-    shards, st = gen_battles(ctx, "configs", ["-shards", 8 if ctx.quick else 32, "-n", 2500 if ctx.quick else 50000], "cf")
-    s2, st2 = gen_battles(ctx, "battles", ["-shards", 8 if ctx.quick else 32, "-n", 1000 if ctx.quick else 30000, "-hostile", "-twin=false"], "bh")
+    shards, st = gen_battles(ctx, "configs", ["-shards", 8 if ctx.quick else 96, "-n", 2500 if ctx.quick else 200000], "cf")
+    s2, st2 = gen_battles(ctx, "battles", ["-shards", 8 if ctx.quick else 96, "-n", 1000 if ctx.quick else 120000, "-hostile", "-twin=false"], "bh")
     rej = ctx.validate_shards("BattleTrace", shards + s2, mode="C04", heap="6g")
     ctx.cov["traces_validated_against_impl"] = st["configs"] + st2["battles"]
     ctx.cov["evaluations"] = st["configs"] + st["cycles"] + st2["events"]
@@ -290,7 +290,7 @@ def check_C12(ctx):
                        "distinct_nontrivial = shifted runs in which a load wraps past the last address or an offset exceeds the core size.")
     ctx.cov["trusted_base"] = ["harness/enc.go tables", "generic core diff", "TLC", "Json module"]
     spec_battle_model(ctx)
-    shards, st = gen_battles(ctx, "rot", ["-shards", 16 if ctx.quick else 64, "-n", 600 if ctx.quick else 15000], "rot")
+    shards, st = gen_battles(ctx, "rot", ["-shards", 16 if ctx.quick else 128, "-n", 600 if ctx.quick else 60000], "rot")
     rej = ctx.validate_shards("BattleTrace", shards, mode="C12", heap="4g")
     rej2 = ctx.validate_shards("BattleTrace", shards, mode="C02", heap="4g")
     ctx.binding_selftest("BattleTrace", shards, "C02", cfg="BattleTrace.cfg")
@@ -310,9 +310,9 @@ def check_C15(ctx):
                        "(two admissible orders in the division-by-zero corner; a third of the battles with the recorder switched to record reads as well); spawn and reset reports. distinct_nontrivial = recorded tasks with at least one changed cell... counted as cycles with a death or a full queue.")
     ctx.cov["trusted_base"] = ["harness listener grouping/snapshot code", "harness/enc.go tables", "TLC", "Json module"]
     spec_battle_model(ctx)
-    shards, st = gen_battles(ctx, "battles", ["-shards", 16 if ctx.quick else 64, "-n", 1200 if ctx.quick else 30000, "-reports", "-twin=false"], "br")
-    s2, st2 = gen_battles(ctx, "battles", ["-shards", 8 if ctx.quick else 32, "-n", 600 if ctx.quick else 15000, "-reports", "-hostile", "-twin=false"], "bh")
-    s3, st3 = gen_battles(ctx, "battles", ["-shards", 8 if ctx.quick else 32, "-n", 500 if ctx.quick else 10000, "-reports", "-reads", "-twin=false"], "brd")
+    shards, st = gen_battles(ctx, "battles", ["-shards", 16 if ctx.quick else 128, "-n", 1200 if ctx.quick else 120000, "-reports", "-twin=false"], "br")
+    s2, st2 = gen_battles(ctx, "battles", ["-shards", 8 if ctx.quick else 64, "-n", 600 if ctx.quick else 60000, "-reports", "-hostile", "-twin=false"], "bh")
+    s3, st3 = gen_battles(ctx, "battles", ["-shards", 8 if ctx.quick else 64, "-n", 500 if ctx.quick else 40000, "-reports", "-reads", "-twin=false"], "brd")
     ctx.notes["battles_with_recorder_recording_reads"] = st3["battles"]
     s2 = s2 + s3
     rej = ctx.validate_shards("BattleTrace", shards + s2, mode="C15", heap="4g")
@@ -485,13 +485,13 @@ def check_C14(ctx):
     r = ctx.tlc("MC_API", cfg="MC_API.cfg", workers=NCPU, timeout=3000, heap="16g")
     ctx.notes["spec_model"] = "MC_API: AddW appends a copy; spec jobs share no variable (independence of interleaving is structural)"
     # (i) alias
-    shards, st = gen_battles(ctx, "alias", ["-shards", 8 if ctx.quick else 32, "-n", 600 if ctx.quick else 20000], "alias")
+    shards, st = gen_battles(ctx, "alias", ["-shards", 8 if ctx.quick else 96, "-n", 600 if ctx.quick else 100000], "alias")
     rej = ctx.validate_shards("BattleTrace", shards, mode="C02", heap="4g")
     ctx.sample(read_lines(shards[0])[:4])
     reproduce_generic(ctx, "C14 alias", rej)
     # (ii) jobs in separate processes
     d = ctx.sub("jobs")
-    njobs = 240 if ctx.quick else 2400
+    njobs = 240 if ctx.quick else 6000
     runs = [("fwd", 1, False), ("rev", 1, False), ("par", 2, True), ("par", 8, True), ("par", 32, True)]
     if not ctx.quick:
         runs += [("par", 16, True), ("par", 32, True), ("par", 5, True)]
